@@ -541,6 +541,34 @@ Section G4.
     rewrite map_nth, seq_nth by exact Hr. reflexivity.
   Qed.
 
+  Lemma KeyExpansion_length key : (length key = 16 \/ length key = 32)%nat ->
+    (length (KeyExpansion sb key) / 4 = length key / 4 + 7)%nat.
+  Proof.
+    intros H. unfold KeyExpansion. rewrite expand_length.
+    assert (Hw : forall n bytes, length (words_of bytes n) = n).
+    { induction n as [|n IH]; intros; [reflexivity|]. cbn [words_of length]. rewrite IH. reflexivity. }
+    rewrite Hw. destruct H as [-> | ->]; reflexivity.
+  Qed.
+
+  Lemma rk128_nth key r : length key = 16%nat -> (r <= 10)%nat ->
+    nth r (repo_key_expand_128_aesni sb key) [] = round_key (KeyExpansion sb key) r.
+  Proof.
+    intros Hlen Hr.
+    apply (nth_of_round_keys _ _ 11); [apply (key_expand_128_aesni_eq key Hlen) | | lia].
+    rewrite KeyExpansion_length by (left; exact Hlen). rewrite Hlen. reflexivity.
+  Qed.
+
+  Lemma rk256_nth key r : length key = 32%nat -> (r <= 14)%nat ->
+    nth r (repo_key_expand_256_aesni sb key) [] = round_key (KeyExpansion sb key) r.
+  Proof.
+    intros Hlen Hr.
+    assert (Hl : (length (KeyExpansion sb key) / 4 = 15)%nat).
+    { rewrite KeyExpansion_length by (right; exact Hlen). rewrite Hlen. reflexivity. }
+    apply (nth_of_round_keys _ _ 15); [| exact Hl | lia].
+    rewrite (key_expand_256_aesni_eq key Hlen). apply firstn_all2.
+    unfold round_keys. rewrite map_length, seq_length, Hl. lia.
+  Qed.
+
   Theorem aesni_block_eq_fips : forall key k b,
     repo_key_expand_aesni sb key = Some k ->
     repo_encrypt_block_aesni sb k b = aes_encrypt sb key b.
@@ -548,23 +576,14 @@ Section G4.
     intros key k b Hk. unfold repo_key_expand_aesni, key_expand_aesni in Hk.
     destruct (length key =? 16)%nat eqn:H16.
     - apply Nat.eqb_eq in H16. injection Hk as <-.
-      unfold aes_encrypt, Nr_of. rewrite H16. change (16 / 4 + 6)%nat with 10%nat.
-      change nr128 with (N.of_nat 10).
-      apply (encrypt_block_aesni_eq_Cipher sb (KeyExpansion sb key) 10); [left; reflexivity|].
-      intros r Hr.
-      apply (nth_of_round_keys _ _ 11); [apply (key_expand_128_aesni_eq key H16) | | lia].
-      unfold KeyExpansion. rewrite expand_length, H16. reflexivity.
+      unfold aes_encrypt, Nr_of. rewrite H16.
+      apply (encrypt_block_aesni_eq_Cipher sb (KeyExpansion sb key) 10 _ b (or_introl eq_refl)).
+      intros r Hr. exact (rk128_nth key r H16 Hr).
     - destruct (length key =? 32)%nat eqn:H32; [|discriminate Hk].
       apply Nat.eqb_eq in H32. injection Hk as <-.
-      unfold aes_encrypt, Nr_of. rewrite H32. change (32 / 4 + 6)%nat with 14%nat.
-      change nr256 with (N.of_nat 14).
-      apply (encrypt_block_aesni_eq_Cipher sb (KeyExpansion sb key) 14); [right; reflexivity|].
-      intros r Hr.
-      apply (nth_of_round_keys _ _ 15); [| | lia].
-      + rewrite <- (key_expand_256_aesni_eq key H32). apply firstn_all2.
-        rewrite (key_expand_256_aesni_eq key H32). unfold round_keys. rewrite map_length, seq_length.
-        unfold KeyExpansion. rewrite expand_length, H32. cbn. lia.
-      + unfold KeyExpansion. rewrite expand_length, H32. reflexivity.
+      unfold aes_encrypt, Nr_of. rewrite H32.
+      apply (encrypt_block_aesni_eq_Cipher sb (KeyExpansion sb key) 14 _ b (or_intror eq_refl)).
+      intros r Hr. exact (rk256_nth key r H32 Hr).
   Qed.
 
   Lemma repo_key_expand_aesni_some key : (length key = 16 \/ length key = 32)%nat ->
